@@ -94,6 +94,8 @@ where
     let merge_fn_span = Span::current();
     let sources: Box<[Arc<Source<T>>]> = Vec::from(sources).into_iter().map(|s| s.into()).collect();
     (move |message| {
+        #[cfg(callbag_verif)]
+        use crate::verif::sync::{ArcSwapOption, AtomicBool, AtomicUsize};
         instrument!(follows_from: &merge_fn_span, "merge", merge_span);
         trace!("from sink: {message:?}");
         if let Message::Handshake(sink) = message {
